@@ -319,12 +319,29 @@ def heartbeat_handler(body, add):
     return len(g), counts
 
 
-def closure_requires(facts, closure_body, want):
+def closure_requires(facts, closure_body, want, parent_fc=None):
     """True iff the (bool) closure can return true only when comparison `want(op,a,b)->'true'|'false'` holds.
-    Implementation: every assignment to _0 is `const false`, is the comparison itself, or sits behind its guard."""
+    Implementation: every assignment to _0 is `const false`, is the comparison itself, or sits behind its guard.
+    The comparison may have been evaluated in the parent and captured as a bool (`let relevant = sn > first; find(|c| relevant && ..)`)."""
     fc = FnCtx(closure_body)
     m = fc.mir
     g = fc.cmp_guards(want)
+    good = set()
+    if parent_fc is not None:
+        from rules.common import closure_env
+        env = closure_env(parent_fc, closure_body)
+        for name, pe in env.items():
+            c = cmp_norm(E.strip_casts(pe))
+            if c is not None and (want(*c) == "true" or want(SWAP[c[0]], c[2], c[1]) == "true"):
+                good.add(name)
+        if good:
+            def captured_true(ce):
+                e = E.strip_casts(ce.expr)
+                if ce.true_target is not None and e[0] == "param" and e[1] == 1 and e[2] and e[2][0] in good:
+                    return "true"
+                return None
+            g = g + fc.guards(captured_true)
+    good_names = set(good)
     ok = True
     any_def = False
     for bb, i, s in m.stmts():
@@ -333,6 +350,9 @@ def closure_requires(facts, closure_body, want):
             e = fc.rv_expr(s)
             if e == ("const", 0):
                 continue
+            e1 = E.strip_casts(e)
+            if e1[0] == "param" and e1[1] == 1 and e1[2] and e1[2][0] in good_names:
+                continue          # the closure's value is the captured comparison itself
             c = cmp_norm(e)
             if c is not None and want(*c) == "true":
                 continue
@@ -391,7 +411,7 @@ def sends_guarded_by_first_relevant(facts, body, add, rule):
                     for d in ds:
                         if d[0] == "s" and d[3].rv.kind == "aggregate" and d[3].rv.agg.get("k") == "closure":
                             cb = facts.bodies.get(d[3].rv.agg["def"])
-                            if cb is not None and closure_requires(facts, cb, first_relevant_pred):
+                            if cb is not None and closure_requires(facts, cb, first_relevant_pred, parent_fc=fc):
                                 ok = True
                                 how = "find-closure requires it"
         add(rule, "%s guarded by seq > first_relevant_sample_seq_num" % t.callee.method(), ok,
